@@ -248,6 +248,8 @@ package vm
 // that was not left by break/return/error has visited every element
 //@ loop 0 invariant [C08] visited: ncalls() == i && 0 <= i && i <= rvLen(value)
 //@ callsite (*Env).DefineValue * [C08] kthelem: ncalls() == i && arg1 == stmt.Vars[0] && arg2 == ite(rvKind(unwrap(rvIndexV(value, i))) == reflect.Ptr, rvElem(unwrap(rvIndexV(value, i))), unwrap(rvIndexV(value, i)))
+// C04: the loop variable is bound (Define, not set-nearest) in the loop's own scope - the fresh child runForStmt made
+//@ callsite (*Env).DefineValue * [C04] loopvar: arg0 == old(runInfo.env)
 //@ ensures [C08] allelems: runInfo.err == nil && !lastBody(ErrBreak) ==> ncalls() == rvLen(value)
 
 //@ func (*runInfoStruct).runForMapStmt
@@ -267,6 +269,7 @@ package vm
 //@ loop 0 invariant [C01] keysok: forall k int :: 0 <= k && k < len(keys) ==> rvValid(keys[k]) && hashableKey(keys[k])
 //@ loop 0 invariant [C08] visited: ncalls() == i && 0 <= i && i <= len(keys)
 //@ callsite (*Env).DefineValue 0 [C08] kthkey: ncalls() == i && arg1 == stmt.Vars[0] && arg2 == keys[i]
+//@ callsite (*Env).DefineValue * [C04] loopvar: arg0 == old(runInfo.env) && (arg1 == stmt.Vars[0] || (len(stmt.Vars) > 1 && arg1 == stmt.Vars[1]))
 //@ ensures [C08] allkeys: runInfo.err == nil && !lastBody(ErrBreak) ==> ncalls() == len(keys)
 
 //@ func (*runInfoStruct).runForChanStmt
@@ -289,6 +292,7 @@ package vm
 //@ callsite reflect.Select * [C16] recvcase: len(arg0) == 2 && arg0[1].Dir == reflect.SelectRecv && arg0[1].Chan == value
 //@ callsite (*runInfoStruct).runSingleStmt * [C16] afterrecv: ncalls() >= 1 && calleeIs(ncalls()-1, "reflect.Select")
 //@ callsite (*runInfoStruct).runSingleStmt * [C16] afterrecv2: res(ncalls()-1) == 0
+//@ callsite (*Env).DefineValue * [C04 C16] loopvar: arg0 == old(runInfo.env) && arg1 == stmt.Vars[0] && ncalls() >= 1 && calleeIs(ncalls()-1, "reflect.Select") && arg2 == ite(rvKind(unwrap(res2(ncalls()-1))) == reflect.Ptr, rvElem(unwrap(res2(ncalls()-1))), unwrap(res2(ncalls()-1)))
 //@ ensures [C16] closedends: runInfo.err == nil && !lastBody(ErrBreak) ==> ncalls() >= 1 && calleeIs(ncalls()-1, "reflect.Select") && res(ncalls()-1) == 1
 //@ ensures [C16 C02] interrupted: ncalls() >= 1 && calleeIs(ncalls()-1, "reflect.Select") && res(ncalls()-1) == 2 ==> runInfo.err == ErrInterrupt
 
@@ -315,6 +319,8 @@ package vm
 //@ ensures [C08] nosentinel: runInfo.err != ErrBreak && runInfo.err != ErrContinue && runInfo.err != ErrReturn
 //@ loop 0 invariant actInv(runInfo) && len(rvs) == len(stmt.Exprs) && runInfo.err == nil && ncalls() == rangeindex + 1 && rangeindex < len(stmt.Exprs) && evalsPrefix(stmt.Exprs) && (forall k int :: 0 <= k && k < ncalls() ==> res(k) == nil)
 //@ ensures [C07] order: evalsPrefix(stmt.Exprs) && okButLast()
+// C04: var always binds in the CURRENT scope (Define on the scope the statement runs in - never set-nearest, never an outer scope)
+//@ callsite (*Env).DefineValue * [C04] varhere: arg0 == old(runInfo.env) && (exists k int :: 0 <= k && k < len(stmt.Names) && arg1 == stmt.Names[k])
 //@ loop 1 invariant actInv(runInfo) && runInfo.err == nil
 //@ loop 2 invariant actInv(runInfo) && runInfo.err == nil
 
@@ -354,6 +360,10 @@ package vm
 //@ props C04 C08 C02
 //@ like template.evalStmt
 //@ requires stmt != nil
+// C04: the module body runs in the module's OWN fresh scope (a child of the current one, bound under the module's name in the
+// current scope): its bindings are reachable only through that name
+//@ callsite (*Env).NewModule * [C04] modhere: arg0 == old(runInfo.env) && arg1 == stmt.Name
+//@ callsite (*runInfoStruct).runSingleStmt * [C04] modscope: fresh(runInfo.env) && runInfo.env.parent == old(runInfo.env) && runInfo.stmt == stmt.Stmt
 
 //@ func (*runInfoStruct).runSwitchStmt
 //@ props C04 C08 C02
